@@ -7,7 +7,7 @@ from . import alpha, gamma
 from .alpha import DAV, CALDAV
 from .world import World
 
-CH = {"x": "x", " ": " ", "%": "%", "#": "#", "?": "?", ";": ";", "+": "+", "e'": "é",
+CH = {"x": "e", " ": " ", "%": "%", "#": "#", "?": "?", ";": ";", "+": "+", "e'": "é",
       "2": "2", "4": "4", "0": "0", "ca": "\u0301"}
 
 
